@@ -7,6 +7,7 @@ import Driver.CmdPoll
 import Driver.CmdInc
 import Driver.CmdNoisy
 import Driver.CmdHist
+import Driver.CmdVal
 open Lean Driver
 
 def dispatch (cmd : String) (j : Json) : R Json :=
@@ -24,6 +25,8 @@ def dispatch (cmd : String) (j : Json) : R Json :=
   | "noisy.run" => cmdNoisyRun j
   | "hist.run" => cmdHistRun j
   | "res.run" => cmdResRun j
+  | "val.run" => cmdValRun j
+  | "fl.ops" => cmdFlOps j
   | _ => throw s!"unknown command '{cmd}'"
 
 def handleLine (line : String) : String :=
